@@ -57,6 +57,8 @@ void GraphSession::opHola(const Json &op) {
         HolaOpts opts;
         if (op.has("useACAforLinks")) opts.useACAforLinks = op.boolean("useACAforLinks", opts.useACAforLinks);
         if (op.has("do_near_align")) opts.do_near_align = op.boolean("do_near_align", opts.do_near_align);
+        if (op.has("preferredAspectRatio")) opts.preferredAspectRatio = (AspectRatioClass)(op.i("preferredAspectRatio", 2) % 3);
+        if (op.has("preferredTreeGrowthDir")) opts.preferredTreeGrowthDir = (CardinalDir)(op.i("preferredTreeGrowthDir", 1) & 3);
         if (op.has("preferConvexTrees")) opts.preferConvexTrees = op.boolean("preferConvexTrees", opts.preferConvexTrees);
         if (op.has("defaultTreeGrowthDir")) opts.defaultTreeGrowthDir = (CardinalDir)(op.i("defaultTreeGrowthDir", 1) & 3);
         PAD = opts.nodePaddingScalar * g->getIEL() + 1e-6;
@@ -116,7 +118,12 @@ void GraphSession::opHola(const Json &op) {
             if (std::fabs(rt[k].x - rt[k - 1].x) > 1e-6 && std::fabs(rt[k].y - rt[k - 1].y) > 1e-6) { 
                 auto ba = e->getSourceEnd()->getBoundingBox(), bb = e->getTargetEnd()->getBoundingBox();
                 std::string rs; for (auto &q : rt) rs += fmt("(%g,%g)", q.x, q.y);
-                violate("C14", "routes", "diagonal-route-segment", fmt("edge %u-%u route %s; node %u [%g,%g]x[%g,%g] node %u [%g,%g]x[%g,%g]", ea, eb, rs.c_str(), ea, ba.x, ba.X, ba.y, ba.Y, eb, bb.x, bb.X, bb.y, bb.Y)); return; }
+                // class: an edge of the core (both ends survive the peeling of leaves) or an edge of a hanging tree
+                std::string ecls;
+                { std::map<unsigned, std::set<unsigned>> adj; for (auto &ed : edges) { adj[(unsigned)ed.first].insert((unsigned)ed.second); adj[(unsigned)ed.second].insert((unsigned)ed.first); }
+                  bool again = true; while (again) { again = false; for (auto it = adj.begin(); it != adj.end();) { if (it->second.size() <= 1) { for (unsigned v : it->second) adj[v].erase(it->first); it = adj.erase(it); again = true; } else ++it; } }
+                  ecls = adj.count(ea) && adj.count(eb) ? ":edge-of-the-core" : ":tree-edge"; }
+                violate("C14", "routes", "diagonal-route-segment" + ecls, fmt("edge %u-%u route %s; node %u [%g,%g]x[%g,%g] node %u [%g,%g]x[%g,%g]", ea, eb, rs.c_str(), ea, ba.x, ba.X, ba.y, ba.Y, eb, bb.x, bb.X, bb.y, bb.Y)); return; }
             double mx0 = std::min(rt[k].x, rt[k - 1].x), mx1 = std::max(rt[k].x, rt[k - 1].x), my0 = std::min(rt[k].y, rt[k - 1].y), my1 = std::max(rt[k].y, rt[k - 1].y);
             for (auto &u : ns) {
                 if (u->id() == e->getSourceEnd()->id() || u->id() == e->getTargetEnd()->id()) continue;
@@ -354,6 +361,7 @@ Json genGraphSession(Rng &r, const std::string &tier, const std::string &what) {
     Json cfg = Json::obj();
     Json nodes = Json::arr(), edges = Json::arr();
     std::set<std::pair<int, int>> es;
+    bool theta = false, thetaChains = false;
     int n;
     if (what == "planarise") {
         int gx = r.range(2, 4), gy = r.range(2, 4); n = gx * gy;
@@ -387,6 +395,29 @@ Json genGraphSession(Rng &r, const std::string &tier, const std::string &what) {
         int extra = style == 0 ? 0 : style == 1 ? 1 : (int)r.below(n / 2 + 1);
         for (int k = 0; k < extra; k++) { int a = (int)r.below(n), b = (int)r.below(n); if (a == b) continue; if (a > b) std::swap(a, b); es.insert({a, b}); }
         }
+        {
+            // style 5 "theta" (side stream; replaces the graph drawn above): two or three hubs joined by 3-4 chains of 2-5 link nodes
+            // each -- long chains of degree-2 nodes whose bend sequences the chain configuration (useACAforLinks = false) has to choose
+            Rng r2(Rng::mix(r.s, "theta"));
+            if (r2.chance(0.25)) {
+                theta = true; es.clear(); nodes = Json::arr();
+                int hubs = r2.range(2, 3), next = hubs;
+                for (int h = 0; h < hubs; h++) {
+                    int a = h, b = (h + 1) % hubs;
+                    if (hubs == 2 && h == 1) break;
+                    int paths = hubs == 2 ? r2.range(3, 4) : r2.range(1, 2);
+                    for (int pth = 0; pth < paths; pth++) {
+                        int len = r2.range(2, 6), prev = a;
+                        for (int k = 0; k < len; k++) { es.insert({std::min(prev, next), std::max(prev, next)}); prev = next++; }
+                        es.insert({std::min(prev, b), std::max(prev, b)});
+                    }
+                }
+                if (r2.chance(0.3)) { es.insert({0, next}); next++; }      // a leaf on a hub
+                n = next;
+                for (int i = 0; i < n; i++) { Json nj = Json::arr(); nj.push((double)r2.below(400)); nj.push((double)r2.below(400)); nj.push((double)(20 + r2.below(4) * 10)); nj.push((double)(20 + r2.below(3) * 10)); nodes.push(nj); }
+                thetaChains = r2.chance(0.85);
+            }
+        }
     } else {
         n = r.range(2, tier == "thorough" ? 60 : 30);
         int sizes = what == "peel" ? (int)r.below(3) : 0;      // uniform; mildly varied; some nodes several times larger
@@ -409,11 +440,18 @@ Json genGraphSession(Rng &r, const std::string &tier, const std::string &what) {
     Json ops = Json::arr();
     Json o = Json::obj(); o.set("op", what);
     if (what == "hola") {
+        if (theta && thetaChains) o.set("useACAforLinks", false); else
         if (cfg.str("style", "") == "hola" && nodes.size() >= 9 && edges.size() >= nodes.size() + 1 && r.chance(0.5)) o.set("useACAforLinks", false);   // chains for links: no ACA destress to repair a misplaced tree
         else if (r.chance(0.5)) o.set("useACAforLinks", r.chance(0.5));
         if (r.chance(0.4)) o.set("do_near_align", r.chance(0.5));
         if (r.chance(0.2)) o.set("preferConvexTrees", r.chance(0.5));
         if (r.chance(0.2)) o.set("defaultTreeGrowthDir", (long)r.below(4));
+    }
+    if (what == "hola") {
+        // the aspect-ratio preference (NONE / PORTRAIT / LANDSCAPE; the final rotation) and the growth direction that breaks its tie: side stream
+        Rng r3(Rng::mix(r.s, "aspect"));
+        if (r3.chance(0.4)) o.set("preferredAspectRatio", (long)r3.below(3));
+        if (r3.chance(0.2)) o.set("preferredTreeGrowthDir", (long)r3.below(4));
     }
     if (what == "peel") { if (r.chance(0.6)) o.set("growth", (long)r.below(4)); if (r.chance(0.2)) o.set("convex", true); }
     ops.push(o);
